@@ -12,7 +12,7 @@
    witnesses that the check replays on the implementation. *)
 From Coq Require Import List ZArith Bool.
 Import ListNotations.
-From PV Require Import Fort.Syntax Fort.Sem C28.Model C28.Proofs C28.Gen C28.GenProofs.
+From PV Require Import Fort.Syntax Fort.Sem C28.Model C28.Proofs C28.Gen C28.GenProofs C28.PsyProofs.
 
 (* any program (all stores, all fuel) without escaping transfer has a well-bracketed trace *)
 Theorem C28_balanced_partial : forall fuel p st st' tr c,
@@ -124,3 +124,33 @@ Example C28_gen_nonvacuous :
   accept_impl TNanTest [SDir 1 [SDo 0 (ELit 1%Z) (ELit 2%Z) (ELit 1%Z) []]] (mkTarget [(0, false)] 0 1) wit_opts = false.
 Proof. exact gen_nonvacuous. Qed.
 Print Assumptions C28_gen_nonvacuous.
+
+(* PSy layer: names issued by get_unique_region_name (LFRic/GOcean extraction) are pairwise distinct
+   for any sequence of regions and any earlier history of the counter *)
+Theorem C28_psy_issue_unique : forall reqs hist, NoDup (issue hist reqs).
+Proof. exact issue_unique_. Qed.
+Print Assumptions C28_psy_issue_unique.
+
+(* the tree under test still keys the counter on the name it builds (translator obligation) *)
+Theorem C28_psy_key_is_name : gen_psy_key_is_name = true.
+Proof. exact gen_psy_key. Qed.
+Print Assumptions C28_psy_key_is_name.
+
+(* PSy layer: names chosen at generation time (gen_code) are pairwise distinct *)
+Theorem C28_psy_lfric_gen_unique : forall nodes i issued,
+  Forall (fun nd => snd nd = PSGen) nodes -> NoDup (lfric_names_from i issued nodes).
+Proof. exact lfric_gen_unique_. Qed.
+Print Assumptions C28_psy_lfric_gen_unique.
+
+(* REFUTED (tree as found): a generation-time name and an issued name can coincide in one invoke *)
+Theorem C28_psy_lfric_mixed_refuted :
+  exists reqs nodes, ~ NoDup (lfric_file_names reqs nodes) /\
+                     (forall u, ~ In (PNUser u) (lfric_file_names reqs nodes)).
+Proof. exact lfric_mixed_refuted_. Qed.
+Print Assumptions C28_psy_lfric_mixed_refuted.
+
+Example C28_psy_issue_nonvacuous :
+  issue [] [(0, [1; 1]); (0, [2; 2]); (0, [3]); (1, [3]); (0, [3])]
+  = [((0, None), 0); ((0, None), 1); ((0, Some 3), 0); ((1, Some 3), 0); ((0, Some 3), 1)].
+Proof. exact issue_nonvacuous. Qed.
+Print Assumptions C28_psy_issue_nonvacuous.
